@@ -375,6 +375,11 @@ struct VecDriver {
                     bad("element", value_of(*it), m[i]);
                     return;
                 }
+                if constexpr (std::is_same_v<T, sim::Sealed>) {
+                    if (!it->untouched()) {
+                        ctx.violation("C02", "memory:relocated-behind-special-members", "an element that is not trivially copyable holds a value its own special members never put at this address (moved by memcpy / memmove)");
+                    }
+                }
             }
             if constexpr (isStatic) {
                 i = m.size();
@@ -2080,6 +2085,249 @@ struct StackDriver : DriverBase<StackDriver<T, N>> {
     }
 };
 
+// ================================================================================================ failing element code
+// F8: foreign code that FAILS inside a library call. The element's copy / move constructor throws when a fuse burns
+// down - the k-th element of a copy cannot be made. inplace_vector builds its copies with uninitialized_copy / _move,
+// which promise to destroy what they had built before the exception leaves: nothing of the half-built copy may stay
+// alive, nothing may be destroyed that was never constructed, and the source must be untouched (copy) or still valid
+// (move).
+inline int g_fuse = -1; // -1: never; k: the (k+1)-th copy / move construction from now on throws
+
+struct Fuse {
+    Fuse() = default;
+
+    Fuse(Fuse const& /*o*/) { burn(); }
+
+    Fuse(Fuse&& /*o*/) { burn(); } // NOLINT: deliberately not noexcept
+
+    auto operator=(Fuse const&) -> Fuse& = default;
+    auto operator=(Fuse&&) -> Fuse&      = default;
+
+    static void burn()
+    {
+        if (g_fuse == 0) {
+            g_fuse = -1;
+            LibPause pause; // the exception object is allocated by the element (foreign code), not by the library
+            throw 7;
+        }
+        if (g_fuse > 0) {
+            --g_fuse;
+        }
+    }
+};
+
+struct Thrower {
+    Fuse fuse; // first member: it throws before the instrumented part is constructed
+    Tracked t;
+
+    Thrower(int x) // NOLINT
+        : t(x)
+    {
+    }
+};
+
+struct ThrowDriver : DriverBase<ThrowDriver> {
+    using Base = DriverBase<ThrowDriver>;
+    static constexpr size_t N = 4;
+    using IV = etl::inplace_vector<Thrower, N>;
+
+    IV* obj[2] = {nullptr, nullptr};
+    std::vector<int> model[2];
+
+    ThrowDriver(Plan const& p, Ctx& c)
+        : Base(p, c)
+    {
+    }
+
+    void resync(int s)
+    {
+        model[s].clear();
+        guarded(false, [&] {
+            for (auto const& e : *obj[s]) {
+                model[s].push_back(e.t.v);
+            }
+        });
+    }
+
+    auto check_state(int s, char const* prop, char const* prefix) -> bool
+    {
+        std::vector<int> got;
+        observe("inplace_vector<Thrower>", [&] {
+            for (auto const& e : *obj[s]) {
+                got.push_back(e.t.v);
+            }
+        });
+        if (got != model[s]) {
+            ctx.violation(prop, std::string(prefix) + ":content", "content differs from the model after a failed element construction (slot " + std::to_string(s) + ")");
+            return false;
+        }
+        return true;
+    }
+
+    void fresh(int s, uint64_t salt)
+    {
+        obj[s] = new (arena_prepare(s, sizeof(IV), plan.cfg, salt, alignof(IV))) IV{};
+        model[s].clear();
+    }
+
+    void destroy(int s)
+    {
+        guarded(true, [&] { obj[s]->~IV(); });
+        auto* lo = slot_obj(s);
+        if (reg().live_in(lo, lo + sizeof(IV)) != 0) {
+            ctx.violation("C03", "lifetime:alive-after-owner-destroyed", "elements alive inside a destroyed inplace_vector");
+            reg().forget_range(lo, lo + sizeof(IV));
+        }
+        arena_retire(s);
+        obj[s] = nullptr;
+    }
+
+    void step(Step const& st)
+    {
+        int const a      = static_cast<int>(st.a % 2);
+        int const b      = 1 - a;
+        char const* name = ops()[static_cast<size_t>(st.op)].name;
+        std::string const op = name;
+        begin_op(name, a);
+        int const val = static_cast<int>(static_cast<uint64_t>(st.v[0]) % 8);
+        IV& v         = *obj[a];
+        if (op == "push") {
+            if (model[a].size() == N) {
+                skip();
+                return;
+            }
+            if (call(a, false, false, [&] { (void)v.try_emplace_back(val); })) {
+                model[a].push_back(val);
+                ++ctx.stateChanging;
+            }
+            return;
+        }
+        if (op == "pop") {
+            if (model[a].empty()) {
+                skip();
+                return;
+            }
+            if (call(a, false, false, [&] { v.pop_back(); })) {
+                model[a].pop_back();
+                ++ctx.stateChanging;
+            }
+            return;
+        }
+        // rebuild b as a copy of / by moving from a; the fuse decides whether and where an element fails
+        bool const move    = op == "move_construct";
+        size_t const sz    = model[a].size();
+        bool const failing = sz != 0 && st.flt != 0;
+        int const fuse     = failing ? static_cast<int>(st.k[0] % sz) : -1;
+        ctx.log.kv("fuse", fuse);
+        destroy(b);
+        void* mem  = arena_prepare(b, sizeof(IV), plan.cfg, static_cast<uint64_t>(ctx.step) + 11, alignof(IV));
+        IV* made   = nullptr;
+        bool threw = false;
+        g_fuse     = fuse;
+        reg().mark_harness_held();
+        auto out = guarded(true, [&] {
+            try {
+                if (move) {
+                    made = new (mem) IV(static_cast<IV&&>(v));
+                } else {
+                    made = new (mem) IV(static_cast<IV const&>(v));
+                }
+            } catch (int) {
+                threw = true;
+            }
+        });
+        g_fuse = -1;
+        if (out != Outcome::completed) {
+            ctx.violation("C05", "contract:spurious", "handler entered in a copy / move construction at " + trap_site());
+            ctx.stop = true;
+            return;
+        }
+        if (failing) {
+            ++ctx.faultsFired;
+            ++ctx.boundaryEvents;
+            SIM_COUNT("F8.element_constructor_failed");
+            ctx.log.s(" ->threw");
+            if (!threw) {
+                ctx.violation("C03", "lifetime:exception-swallowed", "an exception thrown by an element constructor did not leave the copy / move constructor");
+            }
+            // nothing of the half-built object may be alive, whatever had been built was destroyed exactly once (registry)
+            auto* lo = static_cast<unsigned char*>(mem);
+            if (reg().live_in(lo, lo + sizeof(IV)) != 0) {
+                ctx.violation("C03", "lifetime:leak-after-failed-construction", "elements of a half-built copy are still alive after the exception left the constructor");
+                reg().forget_range(lo, lo + sizeof(IV));
+            }
+            if (!arena_guards_ok(b)) {
+                ctx.violation("C02", "memory:guard-damaged", "a failed construction wrote outside the object");
+                arena_guards_repair(b);
+            }
+            arena_retire(b);
+            fresh(b, static_cast<uint64_t>(ctx.step) + 12);
+            if (move) {
+                // the source of a failed move is valid but unspecified: it must still be destructible; rebuild it
+                destroy(a);
+                fresh(a, static_cast<uint64_t>(ctx.step) + 13);
+            }
+            return;
+        }
+        obj[b]   = made;
+        model[b] = model[a];
+        if (move) {
+            destroy(a);
+            fresh(a, static_cast<uint64_t>(ctx.step) + 14);
+        }
+        ++ctx.stateChanging;
+    }
+
+    void run()
+    {
+        fresh(0, 1);
+        fresh(1, 2);
+        for (size_t i = 0; i < plan.steps.size() && !ctx.stop; ++i) {
+            ctx.step     = static_cast<int>(i);
+            g_crash.step = ctx.step;
+            g_fuse       = -1;
+            step(plan.steps[i]);
+            uint64_t sh = hstr(plan.scenario.c_str());
+            for (int s = 0; s < 2 && !ctx.stop; ++s) {
+                if (!check_state(s, "C01", "diff")) {
+                    resync(s);
+                }
+                auto* lo = slot_obj(s);
+                if (reg().live_in(lo, lo + sizeof(IV)) != model[s].size()) {
+                    ctx.violation("C03", "lifetime:leak-inside-owner", "live elements inside the inplace_vector differ from its size");
+                    reg().forget_range(lo, lo + sizeof(IV));
+                    ctx.stop = true;
+                }
+                uint64_t eh = model[s].size();
+                for (int x : model[s]) {
+                    eh = mix64(eh ^ static_cast<uint64_t>(x));
+                }
+                ctx.log.feed(eh);
+                sh = mix64(sh ^ eh ^ (static_cast<uint64_t>(s) << 56));
+            }
+            Base::temporaries_must_be_gone();
+            if (g_counting) {
+                states().insert(sh);
+                transitions().insert(mix64(sh ^ hstr(ctx.op)));
+            }
+            ctx.log.nl();
+        }
+        g_fuse = -1;
+        if (ctx.stop) {
+            reg().reset();
+            return;
+        }
+        destroy(0);
+        destroy(1);
+    }
+
+    static auto ops() -> std::vector<OpDef> const&
+    {
+        static std::vector<OpDef> const o = {{"push", 10}, {"pop", 3}, {"copy_construct", 6}, {"move_construct", 4}};
+        return o;
+    }
+};
+
 template <typename T, size_t N>
 void add_stack(char const* tname)
 {
@@ -2112,7 +2360,7 @@ void add_static(char const* tname)
     if (!is_tracked_v<T> && !std::is_same_v<T, sim::Nest>) {
         s.props = {"C01", "C02", "C05"};
     }
-    s.maxSteps = N >= 254 ? 60 : 40;
+    s.maxSteps = N >= 40 ? 60 : 40;
     s.run      = [](Plan const& p, Ctx& c) {
         D d(p, c);
         d.run();
@@ -2149,6 +2397,8 @@ void add_all(char const* tname)
     add_static<T, 3>(tname);
     add_static<T, 4>(tname);
     add_static<T, 8>(tname);
+    add_static<T, 40>(tname); // between the word sizes 32 and 64
+    add_static<T, 64>(tname);
     add_static<T, 254>(tname);
     add_static<T, 255>(tname);
     add_static<T, 256>(tname);
@@ -2156,6 +2406,7 @@ void add_all(char const* tname)
     add_inplace<T, 1>(tname);
     add_inplace<T, 2>(tname);
     add_inplace<T, 4>(tname);
+    add_inplace<T, 40>(tname);
     add_inplace<T, 255>(tname);
     add_inplace<T, 256>(tname);
 }
@@ -2181,6 +2432,10 @@ void register_vec_0()
     add_inplace<double, 4>("double");
     add_stack<double, 3>("double");
     // operator< coarser than operator==: ties of the lexicographic comparison are decided by < alone
+    // not trivially copyable although trivially default-constructible and trivially destructible (shadow-checked)
+    add_static<sim::Sealed, 4>("Sealed");
+    add_static<sim::Sealed, 8>("Sealed");
+    add_inplace<sim::Sealed, 4>("Sealed");
     add_static<sim::Coarse, 4>("Coarse");
     add_inplace<sim::Coarse, 4>("Coarse");
     add_stack<sim::Coarse, 3>("Coarse");
@@ -2234,6 +2489,19 @@ void register_vec_1()
     add_static<sim::TrackedOA, 3>("TrackedOA");
     add_inplace<sim::TrackedOA, 2>("TrackedOA");
     add_stack<sim::TrackedOA, 2>("TrackedOA");
+    {
+        Scenario s;
+        s.family   = "vec";
+        s.name     = "inplace_vector<Thrower,4>";
+        s.ops      = ThrowDriver::ops();
+        s.props    = {"C03", "C02"};
+        s.maxSteps = 30;
+        s.run      = [](Plan const& p, Ctx& c) {
+            ThrowDriver d(p, c);
+            d.run();
+        };
+        registry().push_back(std::move(s));
+    }
 }
 #elif SIM_PART == 2
 void register_vec_2() { add_all<sim::TrackedMoveOnly>("TrackedMoveOnly"); }
